@@ -122,6 +122,32 @@ def run_tlc(module, cfg, pid, tag, workers=4, timeout=900, simulate=None, seed=N
     return res
 
 
+def run_harness_sharded(module, cases, wd, opts=(), shards=8, timeout=7200):
+    """split the cases over `shards` harness processes and merge their reports (same shape as run_harness)"""
+    import concurrent.futures as cf
+    parts = [cases[k::shards] for k in range(shards)]
+    parts = [p for p in parts if p]
+
+    def one(k):
+        cp, rp = os.path.join(wd, "cases_%d.ndjson" % k), os.path.join(wd, "report_%d.json" % k)
+        write_cases(parts[k], cp)
+        return run_harness(module, cp, rp, opts, timeout)
+    with cf.ThreadPoolExecutor(max_workers=len(parts)) as ex:
+        reps = list(ex.map(one, range(len(parts))))
+    tot = {"cases": 0, "execs": 0, "nontrivial": 0, "n_failures": 0, "failures": [], "samples": [], "counters": {}, "notes": []}
+    for r in reps:
+        for k in ("cases", "execs", "nontrivial", "n_failures"):
+            tot[k] += r.get(k, 0)
+        tot["failures"] += r["failures"]
+        tot["samples"] += r["samples"][:1]
+        for n in r.get("notes", []):
+            if n not in tot["notes"]:
+                tot["notes"].append(n)
+        for k, n in r["counters"].items():
+            tot["counters"][k] = tot["counters"].get(k, 0) + n
+    return tot
+
+
 def write_cases(cases, path):
     with open(path, "w") as f:
         for c in cases:
